@@ -54,6 +54,13 @@ except (OSError, ValueError):
     pass
 # changes kept although the broken property's check does not (and must not) fire on them
 NOT_A_VIOLATION = {
+ "C09-r7m1": "Not detected, by design: pop_front takes its raw pointer from a shared borrow of element 0 and reads the other N-1 elements through it. Values and drop counts are "
+             "unchanged natively and under Miri/Tree Borrows; only the experimental Stacked Borrows model objects (provenance narrowed to one element). Every clause of C09 holds.",
+ "C11-r7m1": "Not detected, by design: the by-reference Unflatten forms are routed through the crate's own chunks_from_slice(_mut) + from_(mut_)slice. Lengths, addresses and extents "
+             "are identical; the &mut form inherits the pinned tree's own Stacked-Borrows complaint about chunks_from_slice_mut (two whole-slice reborrows), which Tree Borrows "
+             "accepts. Every clause of C11 holds (writes through the view do appear in the original).",
+ "C15-r7m2": "Not detected, by design: try_from_boxed_slice derives its pointer with as_mut_ptr() and then mem::forget()s the box. Address, contents, drop counts and length checks "
+             "are unchanged natively and under Miri/Tree Borrows; only the experimental Stacked Borrows model objects. Every clause of C15 holds (same block, no copy).",
  "C09-r6m1": "Not detected, by design: remove_unchecked reads the removed element and the tail through as_ptr() (a shared reborrow) and writes through as_mut_ptr(). Returned values, "
              "order and drop counts are unchanged natively and under Miri/Tree Borrows; only the experimental Stacked Borrows model objects, as it already does to the pinned tree's "
              "chunks_from_slice_mut. Every clause of C09 holds for the changed code; the thorough tier prints the Stacked Borrows report as advisory.",
